@@ -46,3 +46,62 @@ reg("C19",
          "checked against an array-based reference map, followed by a batch of generated attribute paths; "
          "signatures are (key-set size, history length) and path classes",
     assumptions=["internal attr_path_* functions are called directly (library built without its version script)"])
+
+ENGINE = COMMON + ["vshim.c", "vpki.c", "veng.c"]
+
+reg("C01",
+    title="messaging transports deliver exactly the accepted messages",
+    technique="recorded send/receive histories with unique message contents checked against the sender's ledger (exactly-once, order, bytes) under shim-injected short reads/writes and EAGAIN; ASan+UBSan",
+    level_text="Real connections on ux, uxf, tcp, tls and utls (UX leg, TLS leg, fallback) in non-blocking, blocking and mixed mode are driven with random interleavings of send/receive/finish/await while a link-time shim below XCM and below OpenSSL fragments and refuses reads and writes; every message has unique content and an offline oracle compares the receiver's history with the sender's ledger of accepted sends (prefix always, equality after a graceful or quiescent end).",
+    level_note="Held on the executions produced; kernel scheduling is not controlled. Floors require header splits, frame splits and mid-frame refusals to have been observed.",
+    harness=ENGINE + ["traffic.c"], exe="h_traffic",
+    stages=[dict(variant="asan", cases={"quick": 720, "thorough": 14400}, timeout={"quick": 900, "thorough": 3400})],
+    floors={"quick": {"header_splits": 200, "frame_splits": 500, "refused_mid_frame": 100, "complete_directions": 300,
+                      "cases_with_truncating_receive": 50, "distinct_nontrivial": 60},
+            "thorough": {"header_splits": 4000, "frame_splits": 10000, "refused_mid_frame": 2000, "complete_directions": 6000, "distinct_nontrivial": 200}},
+    rule="one evaluation = one connection history (transport x mode x direction x end mode x injection plan x size/capacity class); "
+         "non-trivial = at least one frame header completed over >=2 reads/writes, a frame flushed over >=2 writes, a refusal (injected or kernel EAGAIN) "
+         "or a truncating receive occurred; distinct = distinct (transport, mode, bidir, end, plan, size, capacity, observed-event bits) signatures",
+    assumptions=["tcp.user_timeout raised to 60 s so that scheduler stalls on a loaded machine are not mistaken for loss",
+                 "capacity 0 is never passed to xcm_receive"])
+
+reg("C02",
+    title="byte-stream transports deliver exactly the accepted bytes",
+    technique="recorded byte-stream histories (content keyed by send call) checked as prefix/equality against the accepted ranges under shim-injected short I/O and EAGAIN below XCM and OpenSSL; ASan+UBSan",
+    level_text="btcp and btls connections in non-blocking, blocking and mixed mode; every xcm_send call carries bytes generated from its own call number, so bytes of a refused call are distinguishable from whatever is offered next (same, longer, shorter or different data); the receiver's concatenated stream is compared with the concatenation of the accepted prefixes (prefix at all times, equality after flush+graceful close or quiescence); return-value contract and capacity bound checked on exact-size heap buffers.",
+    level_note="Held on the executions produced. Refusals below OpenSSL after a record was sealed are produced by the shim, not by a real full socket buffer.",
+    harness=ENGINE + ["traffic.c"], exe="h_traffic",
+    stages=[dict(variant="asan", cases={"quick": 480, "thorough": 9600}, timeout={"quick": 900, "thorough": 3400})],
+    floors={"quick": {"injected_eagain": 2000, "partial_acceptance": 200, "retries_with_different_data": 300, "retries_with_same_data": 100,
+                      "complete_directions": 200, "distinct_nontrivial": 40},
+            "thorough": {"injected_eagain": 40000, "partial_acceptance": 4000, "retries_with_different_data": 6000, "complete_directions": 4000, "distinct_nontrivial": 100}},
+    rule="one evaluation = one byte-stream connection history; non-trivial = at least one refusal or short read/write occurred; "
+         "distinct = distinct (transport, mode, bidir, end, plan, size, capacity, observed-event bits) signatures",
+    assumptions=["tcp.user_timeout raised to 60 s", "capacity 0 is never passed to xcm_receive"])
+
+reg("C03",
+    title="a failed send leaves no trace; a successful one is delivered once",
+    technique="send-outcome monitor: counter snapshots around every failing xcm_send, ledger of failed/accepted attempts vs. deliveries, EINTR injected at every blocking wait (shim) and by real signals; ASan+UBSan",
+    level_text="Every xcm_send outcome on every transport and mode is recorded; sends that fail with EAGAIN/EMSGSIZE/EINVAL/EINTR must leave all counters except to_lower unchanged, must never be delivered, and the application model re-sends them (same or different data) so that a hidden acceptance shows up as a duplicate. Sizes 0, max+1, 1 MiB and 2^31+5 are mixed in. EINTR is injected at the n-th blocking poll of a back-pressured blocking sender (n swept over cases) and by real SIGUSR1.",
+    level_note="Held on the executions produced; fault_enumeration over the index of the interrupted wait is sampled per case, not exhaustive.",
+    harness=ENGINE + ["traffic.c"], exe="h_traffic",
+    stages=[dict(variant="asan", cases={"quick": 660, "thorough": 13200}, timeout={"quick": 900, "thorough": 3400})],
+    floors={"quick": {"refusal_counter_snapshots": 3000, "send_oversized": 500, "send_zero_len": 200, "eintr_injected": 30,
+                      "send_refused_eagain": 3000, "complete_directions": 250, "distinct_nontrivial": 60},
+            "thorough": {"refusal_counter_snapshots": 60000, "eintr_injected": 600, "complete_directions": 5000, "distinct_nontrivial": 150}},
+    rule="one evaluation = one connection history with odd-size sends mixed in; non-trivial = at least one xcm_send was refused (EAGAIN) or interrupted (EINTR); "
+         "distinct = distinct (transport, mode, plan, sizes, observed-event bits incl. EINTR fired) signatures",
+    assumptions=["tcp.user_timeout raised to 60 s"])
+
+reg("C17",
+    title="traffic counters tell the truth",
+    technique="counter monitor: all xcm.*_msgs/_bytes attributes read after every engine step on both ends and compared with the harness ledgers (monotone, app-side equality, ordering, quiescent agreement); ASan+UBSan",
+    level_text="After every step of a non-blocking history (partial flushes, truncating receives, refused/oversized/zero sends, closes) the 8 (4 on byte streams) counters of both ends are read through xcm_attr_get_int64 and compared with what the application really sent and received; at quiescence sender.to_lower, receiver.from_lower and the ledger must agree, on every transport.",
+    level_note="Counters are only read from the scheduler thread (non-blocking cases) and at the end of threaded cases.",
+    harness=ENGINE + ["traffic.c"], exe="h_traffic",
+    stages=[dict(variant="asan", cases={"quick": 660, "thorough": 13200}, timeout={"quick": 900, "thorough": 3400})],
+    floors={"quick": {"counter_reads": 50000, "quiescent_counter_checks": 100, "cases_with_truncating_receive": 40, "distinct_nontrivial": 60, "connections_beyond_2G": 1},
+            "thorough": {"counter_reads": 1000000, "quiescent_counter_checks": 2000, "distinct_nontrivial": 150, "connections_beyond_2G": 2}},
+    rule="one evaluation = one connection history with the counter monitor sampling after every step; non-trivial = a refusal, split frame or truncating receive occurred; "
+         "distinct = distinct (transport, mode, plan, sizes, observed-event bits) signatures",
+    assumptions=["sends that fail with a connection errno may already be counted in from_app (accepted, then the flush failed): slack of one message there"])
